@@ -2,6 +2,7 @@ package rules
 
 import (
 	"fmt"
+	"go/constant"
 	"go/token"
 	"go/types"
 	"sort"
@@ -223,6 +224,32 @@ func C04(c *Ctx) {
 	if consumer == nil {
 		c.R.Violate("C04-R3", "consider: consumer flag", c.P.Pos(consider.Pos()), "no test Type == \"message\" in consider")
 	} else {
+		// isConsumer: the branching-type test itself, or a read of a private local cell (a field of a local struct, say)
+		// that holds nothing but that test
+		isConsumer := func(v ssa.Value) bool {
+			if v == ssa.Value(consumer) {
+				return true
+			}
+			defs, zero, ok := privateCellDefs(v)
+			if !ok || zero || len(defs) == 0 {
+				return false
+			}
+			for _, d := range defs {
+				if d.v != ssa.Value(consumer) {
+					return false
+				}
+			}
+			return true
+		}
+		// consumerFact: what the facts say about the branching-type test
+		consumerFact := func(facts []flow.Fact) (known, val bool) {
+			for _, f := range facts {
+				if isConsumer(f.Cond) {
+					known, val = true, f.True
+				}
+			}
+			return
+		}
 		nret := 0
 		for _, b := range consider.Blocks {
 			ret, ok := b.Instrs[len(b.Instrs)-1].(*ssa.Return)
@@ -237,34 +264,57 @@ func C04(c *Ctx) {
 				continue
 			}
 			nret++
-			c.R.Check(ret.Results[2] == ssa.Value(consumer), "C04-R3", fmt.Sprintf("consider: return#%d reports Type==\"message\"", nret), c.pos(ret), "consumed result is the branching-type test", "the consumed result is not exactly 'Type == \"message\"'")
+			same := isConsumer(ret.Results[2])
+			if cst, isC := ret.Results[2].(*ssa.Const); isC && cst.Value != nil && cst.Value.Kind() == constant.Bool {
+				// a literal where the test is already decided the same way is the test's value
+				if known, val := consumerFact(flow.FactsAt(b)); known && val == constant.BoolVal(cst.Value) {
+					same = true
+				}
+			}
+			c.R.Check(same, "C04-R3", fmt.Sprintf("consider: return#%d reports Type==\"message\"", nret), c.pos(ret), "consumed result is the branching-type test", "the consumed result is not exactly 'Type == \"message\"'")
 		}
 		// against
 		if len(tryCalls) == 1 {
 			ag := tryCalls[0].Common().Args[3]
-			okAg := false
-			if p, ok := ag.(*ssa.Phi); ok && len(p.Edges) == 2 {
-				okAg = true
+			// the ways the matched value comes about, each with the facts of that way: the edges of a phi, or the
+			// stores into a private local cell
+			type agWay struct {
+				v     ssa.Value
+				facts []flow.Fact
+			}
+			var ways []agWay
+			if p, ok := ag.(*ssa.Phi); ok {
 				for i, e := range p.Edges {
-					facts := flow.EdgeFacts(p.Block().Preds[i], p.Block())
-					isMsg := false
-					for _, f := range facts {
-						if f.Cond == ssa.Value(consumer) {
-							isMsg = f.True
-						}
-					}
-					if pr, isP := e.(*ssa.Parameter); isP && pr == ifaceParam(consider) {
-						if !isMsg {
-							okAg = false
-						}
-					} else if pr, isP := ssau.Strip(e).(*ssa.Parameter); isP {
-						if !ssau.TypeIs(pr.Type(), prog.Abs("match"), "Bindings") || isMsg {
-							okAg = false
-						}
-					} else {
+					ways = append(ways, agWay{e, flow.EdgeFacts(p.Block().Preds[i], p.Block())})
+				}
+			} else if defs, zero, ok := privateCellDefs(ag); ok && !zero {
+				for _, d := range defs {
+					ways = append(ways, agWay{d.v, flow.FactsAt(d.b)})
+				}
+			}
+			okAg := len(ways) >= 2
+			nMsg, nBs := 0, 0
+			for _, w := range ways {
+				_, isMsg := consumerFact(w.facts)
+				if pr, isP := w.v.(*ssa.Parameter); isP && pr == ifaceParam(consider) {
+					nMsg++
+					if !isMsg {
 						okAg = false
 					}
+				} else if pr, isP := ssau.Strip(w.v).(*ssa.Parameter); isP {
+					nBs++
+					if !ssau.TypeIs(pr.Type(), prog.Abs("match"), "Bindings") || isMsg {
+						okAg = false
+					}
+				} else {
+					okAg = false
 				}
+			}
+			if _, isPhi := ag.(*ssa.Phi); isPhi && len(ways) != 2 {
+				okAg = false
+			}
+			if nMsg == 0 || nBs == 0 {
+				okAg = false
 			}
 			c.R.Check(okAg, "C04-R3", "consider: matched against message or bindings", c.pos(tryCalls[0]), "pending message under message branching, current bindings otherwise", "the value the patterns are matched against is not (message under message branching | bindings otherwise)")
 			// missing message: some return that cannot reach the branch loop holds (consumer, pending == nil),
@@ -286,24 +336,21 @@ func C04(c *Ctx) {
 				if _, isRet := b.Instrs[len(b.Instrs)-1].(*ssa.Return); !isRet || flow.Reachable(b, tryCalls[0].Block(), nil) {
 					continue
 				}
-				hasC, hasNil := false, false
+				hasNil := false
 				for _, f := range flow.FactsAt(b) {
-					if f.Cond == ssa.Value(consumer) && f.True {
-						hasC = true
-					}
 					if isPendingNil(f, true) {
 						hasNil = true
 					}
 				}
-				if hasC && hasNil {
+				if known, val := consumerFact(flow.FactsAt(b)); known && val && hasNil {
 					okMissing = true
 				}
 			}
-			if p, ok := ag.(*ssa.Phi); ok && okMissing {
-				for i, e := range p.Edges {
-					if pr, isP := e.(*ssa.Parameter); isP && pr == ifaceParam(consider) {
+			if okMissing {
+				for _, w := range ways {
+					if pr, isP := w.v.(*ssa.Parameter); isP && pr == ifaceParam(consider) {
 						nonNil := false
-						for _, f := range flow.EdgeFacts(p.Block().Preds[i], p.Block()) {
+						for _, f := range w.facts {
 							if isPendingNil(f, false) {
 								nonNil = true
 							}
@@ -575,23 +622,103 @@ func C04(c *Ctx) {
 				if !failed {
 					continue
 				}
-				n11++
-				var bad []string
-				seenNode, seenBranches := false, false
-				for _, ft := range post {
-					a := about(ft.Cond, 0)
-					if a["other"] {
-						bad = append(bad, "the exit depends on "+ft.Cond.String()+" ("+c.pos(ft.If)+"), which is neither the action's result nor one of the spec's routing settings")
+				// the exits this return stands for: itself, or — when it hands on the results of a helper that was
+				// called on the failed-action path (actionFailed(...) returning a "done" flag, say) — the returns of
+				// that helper which the facts here allow, each with the facts that hold there
+				type exit struct {
+					ret  *ssa.Return
+					post []flow.Fact
+				}
+				var exits []exit
+				var expand func(ret *ssa.Return, post []flow.Fact, depth int)
+				expand = func(ret *ssa.Return, post []flow.Fact, depth int) {
+					var via *ssa.Call
+					if depth < 3 {
+						cands := map[*ssa.Call]bool{}
+						note := func(v ssa.Value) {
+							var cl *ssa.Call
+							switch x := v.(type) {
+							case *ssa.Extract:
+								cl, _ = x.Tuple.(*ssa.Call)
+							case *ssa.Call:
+								cl = x
+							}
+							if cl != nil {
+								cands[cl] = true
+							}
+						}
+						for _, r := range ret.Results {
+							for _, pe := range phiEdgesWithBlocks(r, ret.Block()) {
+								note(pe.v)
+							}
+						}
+						for _, ft := range post {
+							note(ft.Cond)
+						}
+						for cl := range cands {
+							h := cl.Common().StaticCallee()
+							if h == nil || h.Blocks == nil || cl.Parent() != ret.Parent() || ssa.Instruction(cl) == siteInFn(cl.Parent(), actionCall) {
+								continue
+							}
+							inStep, holdsAction := false, false
+							for _, g := range stepFns {
+								if g == h {
+									inStep = true
+								}
+							}
+							for _, g := range pkgClosure(h) {
+								if g == actionCall.Parent() {
+									holdsAction = true
+								}
+							}
+							if !inStep || holdsAction {
+								continue
+							}
+							// the helper is called on the failed-action path (in the function that holds the action call: after
+							// the failure is known; deeper: anywhere, the whole helper is on that path)
+							onFailed := depth > 0
+							for _, ft := range flow.FactsAt(cl.Block()) {
+								if bo, isB := ft.Cond.(*ssa.BinOp); isB && ssau.IsNilConst(bo.Y) && ((bo.Op == token.NEQ && ft.True) || (bo.Op == token.EQL && !ft.True)) {
+									if bo.X.Type().String() == "error" && about(bo.X, 0)["exec"] {
+										onFailed = true
+									}
+								}
+							}
+							if onFailed && (via == nil || cl.Pos() < via.Pos()) {
+								via = cl
+							}
+						}
 					}
-					if a["node"] {
-						seenNode = true
+					if via == nil {
+						exits = append(exits, exit{ret, post})
+						return
 					}
-					if a["branches"] {
-						seenBranches = true
+					known := flow.Expand(append([]flow.Fact{}, flow.FactsAt(ret.Block())...))
+					n := 0
+					for _, hb := range via.Common().StaticCallee().Blocks {
+						r2, isRet := hb.Instrs[len(hb.Instrs)-1].(*ssa.Return)
+						if !isRet || !feasibleReturn(via, r2, known) {
+							continue
+						}
+						n++
+						expand(r2, append(append([]flow.Fact{}, post...), flow.FactsAt(hb)...), depth+1)
+					}
+					if n == 0 {
+						exits = append(exits, exit{ret, post})
 					}
 				}
-				_, _ = seenNode, seenBranches
-				c.R.Check(len(bad) == 0, "C04-R11", fmt.Sprintf("%s: exit #%d on the failed-action path is chosen by the routing settings", fname(f), n11), c.pos(ret), "after the action failed, only the action's result, Spec.ActionErrorBranches and Spec.ActionErrorNode decide this exit", strings.Join(bad, "; ")+": some failures of an action (a timeout, say) are then routed differently from the others")
+				expand(ret, post, 0)
+				for _, ex := range exits {
+					n11++
+					var bad []string
+					for _, ft := range ex.post {
+						a := about(ft.Cond, 0)
+						if a["other"] {
+							bad = append(bad, "the exit depends on "+ft.Cond.String()+" ("+c.pos(ft.If)+"), which is neither the action's result nor one of the spec's routing settings")
+						}
+					}
+					c.R.Check(len(bad) == 0, "C04-R11", fmt.Sprintf("%s: exit #%d on the failed-action path is chosen by the routing settings", fname(f), n11), c.pos(ex.ret), "after the action failed, only the action's result, Spec.ActionErrorBranches and Spec.ActionErrorNode decide this exit", strings.Join(bad, "; ")+": some failures of an action (a timeout, say) are then routed differently from the others")
+				}
 			}
 		}
 	}
